@@ -48,6 +48,13 @@ import (
 // acceptance, and every tracked object is read back.  The final step clears all faults,
 // repairs the metabase file, switches to read-write and demands full service.
 //
+// A divergence does not end a history: the statement quantifies over ANY sequence of mode
+// changes, so the switches that follow a failed one (and should repair the shard) are
+// driven and judged as well.  Class key = what | reported mode | kind of failed switch
+// seen in the case | what SetMode has returned since the most recent failed switch
+// (nothing succeeded / only SetMode(already reported mode) / a switch that changed the
+// reported mode) - all four taken from observed results, none from component internals.
+//
 // Component failures: (a) verifhook.Fault("shard.setmode.<component>") makes the
 // component refuse to switch (it stays in its old mode), (b) the metabase file is really
 // made unopenable (replaced by garbage while the original is moved aside), (c) a shard
@@ -1004,7 +1011,7 @@ func vf43Run(r *verifkit.Run, h *verifkit.Hooks, root string, ci int, kind strin
 func TestVerif_C43(t *testing.T) {
 	r := verifkit.Start(t, "C43", "exploration")
 	defer r.Finish()
-	r.SetRule("case = real shard (fstree + bbolt metabase, with/without write-cache) filled in read-write, then 20..49 seeded steps: SetMode to a random mode (55%: one component of the documented switch order refuses via verifhook.Fault shard.setmode.<component>; kind 'real': the metabase file is really swapped for garbage / repaired between steps; kind 'startup': shard restarted over an unopenable metabase), Put, Delete, MarkGarbage, List/Select/IsLocked/ListContainers, FlushWriteCache; after EVERY step GetMode() is re-read, write acceptance is probed and every acknowledged object is read back; last step: faults cleared, file repaired, SetMode(READ_WRITE), full service check. distinct = (request kind, reported mode, outcome class, write-cache, components diverged per documented order) and (transition, refusing component, outcome)")
+	r.SetRule("case = real shard (fstree + bbolt metabase, with/without write-cache) filled in read-write, then 20..49 seeded steps: SetMode to a random mode (55%: one component of the documented switch order refuses via verifhook.Fault shard.setmode.<component>; kind 'real': the metabase file is really swapped for garbage / repaired between steps; kind 'startup': shard restarted over an unopenable metabase), Put, Delete, MarkGarbage, List/Select/IsLocked/ListContainers, FlushWriteCache; after EVERY step GetMode() is re-read, write acceptance is probed and every acknowledged object is read back; a divergence does NOT end the history (the steps after it - later switches that should repair the shard - are judged too; an object whose read diverged is reported once); after a failed switch 50% of the next steps are a recovery walk of 1..3 fault-free switches to random modes, each probed; last step: faults cleared, file repaired, SetMode(READ_WRITE), full service check. distinct = (request kind, reported mode, outcome class, write-cache, components diverged per documented order, history shape since the most recent failed switch) and (transition, refusing component, outcome)")
 	r.Assume("a refusing component (injected) leaves that component in its previous mode; components switched before it, per the documented order, are switched")
 	r.Assume("Delete/MarkGarbage in degraded (read-write) mode and error identities are not constrained; Exists is demanded only in modes with metabase")
 	r.SetMaxSamples(4)
@@ -1022,7 +1029,7 @@ func TestVerif_C43(t *testing.T) {
 	h := verifkit.InstallHooks()
 	defer h.Uninstall()
 
-	nInj, nReal, nStart, nClean := r.Pick(50, 1500), r.Pick(26, 600), r.Pick(8, 100), r.Pick(14, 300)
+	nInj, nReal, nStart, nClean := r.Pick(50, 1200), r.Pick(26, 480), r.Pick(8, 100), r.Pick(14, 220)
 	for ci := 0; ci < nClean; ci++ {
 		vf43Run(r, h, root, ci, "clean")
 	}
@@ -1053,6 +1060,9 @@ func TestVerif_C43(t *testing.T) {
 	}
 	if r.Counter("real_component_failures") == 0 {
 		r.Inconclusive("no real metabase open failure was produced")
+	}
+	if r.Counter("writes_accepted_after_mode_change_following_failed_switch") == 0 || r.Counter("successful_switches_after_failed_switch_"+vf43SinceNames[vf43SinceSameOnly]) == 0 {
+		r.Inconclusive("no history continued past a failed switch into a successful switch followed by a served write (repair by a later switch was never exercised)")
 	}
 	if r.Counter("final_returns_to_read_write") == 0 {
 		r.Inconclusive("no case reached the final return to read-write")
